@@ -23,6 +23,8 @@ type Clause struct {
 type LoopContract struct {
 	Invariants []Clause
 	Decreases  []Clause
+	Apply      []Clause // lemma instances assumed at the loop head (expression is an ECall of the lemma)
+	ApplyEnd   []Clause // lemma instances assumed at the back edge
 }
 
 type FuncContract struct {
@@ -47,6 +49,8 @@ type FuncContract struct {
 	Fresh      []string // results that are freshly allocated
 	Unroll     int
 	Callbacks  map[string]string // parameter name -> "pure"
+	Uses       []string          // lemmas available as hypotheses
+	Apply      []Clause          // lemma instances assumed at every return
 }
 
 type SpecParam struct {
@@ -70,6 +74,7 @@ type Lemma struct {
 	Requires []Clause
 	Ensures  []Clause
 	Induct   string
+	Uses     []string
 	Tags     []string
 	Pos      string
 }
@@ -218,6 +223,8 @@ func (c *Contracts) LoadContractFile(file, pkgPath string) error {
 					}
 				case "induct":
 					curLemma.Induct = strings.TrimSpace(rest)
+				case "uses":
+					curLemma.Uses = append(curLemma.Uses, strings.Fields(strings.ReplaceAll(rest, ",", " "))...)
 				case "tags":
 					curLemma.Tags = strings.Fields(rest)
 				default:
@@ -277,6 +284,17 @@ func parseClause(fc *FuncContract, word, rest, pos string) error {
 		fc.Unroll = n
 	case "fresh":
 		fc.Fresh = append(fc.Fresh, splitComma(rest)...)
+	case "apply":
+		cl, err := mk()
+		if err != nil {
+			return err
+		}
+		if _, ok := cl.Expr.(ECall); !ok {
+			return fmt.Errorf("apply: expected LEMMA(args)")
+		}
+		fc.Apply = append(fc.Apply, cl)
+	case "uses":
+		fc.Uses = append(fc.Uses, strings.Fields(strings.ReplaceAll(rest, ",", " "))...)
 	case "callback":
 		f := strings.Fields(rest)
 		if len(f) != 2 || f[1] != "pure" {
@@ -354,6 +372,19 @@ func parseClause(fc *FuncContract, word, rest, pos string) error {
 				return err
 			}
 			lc.Invariants = append(lc.Invariants, Clause{Expr: ex, Src: r3, Pos: pos})
+		case "apply", "apply-end":
+			ex, err := ParseExpr(r3)
+			if err != nil {
+				return err
+			}
+			if _, ok := ex.(ECall); !ok {
+				return fmt.Errorf("apply: expected LEMMA(args)")
+			}
+			if w3 == "apply" {
+				lc.Apply = append(lc.Apply, Clause{Expr: ex, Src: r3, Pos: pos})
+			} else {
+				lc.ApplyEnd = append(lc.ApplyEnd, Clause{Expr: ex, Src: r3, Pos: pos})
+			}
 		case "decreases":
 			for _, part := range splitComma(r3) {
 				ex, err := ParseExpr(part)
